@@ -108,7 +108,8 @@ Frame(m) ==
 \* RFC 9112 7.1: chunked-body = *chunk last-chunk trailer-section CRLF
 GoodChunk == {"ok", "ext", "smugdata", "bwsext"}     \* grammatical (bwsext: BWS before ';')
 \* "barelf": chunk-size line ended by a bare LF -- some recipients accept it; malformed => ambiguous
-\* bad: "badsize" (non-hex), "nocrlf" (no CRLF after chunk data), "lfext" (LF inside an
+\* bad: "badsize" (non-hex), "nocrlf" (no CRLF after chunk data), "badterm" (two other bytes
+\*      where the CRLF after chunk data belongs), "lfext" (LF inside an
 \*      extension), "oversize" (size does not fit any integer type)
 RECURSIVE CP(_, _, _, _, _)
 CP(b, j, data, phase, amb) ==
